@@ -8,7 +8,7 @@ from ..adapters import lex
 RULE = ("valid: every constant derivable from the C11 6.4.4/6.4.5 grammar with digit strings up to a bound (all bases, every first digit, every "
         "suffix spelling incl. the listed extensions, exponent signs, empty integer or fraction part), every escape sequence in character and "
         "string constants with every prefix, each lexed in the right contexts ';' ')' ',' ' ' and after '= '; oracle: exactly one token spanning "
-        "the whole constant, no lexical diagnostic.  malformed: every member of the families L1..L10 of DESIGN §4.11 up to the bound; oracle: "
+        "the whole constant, no lexical diagnostic.  malformed: every member of the families L1..L10 of DESIGN §4.11 up to the bound, and L11 (a digit the base lacks together with an unknown suffix: the digit code is still required); oracle: "
         "the matching diagnostic, located inside the literal, the literal still one token (L1..L8).  Enumeration is exhaustive over the bound; "
         "non-trivial = every constant (all distinct by construction)")
 
@@ -166,6 +166,13 @@ def malformed(bound):
     for base in ("1", "42", "017", "0", "0x1f", "0XA", "0b101"):
         for s in bad_isuf:
             yield "L4", base + s, "INVALID_SUFFIX", True
+    # two defects in one constant: a digit the base does not have *and* an unknown suffix — the digit is still reported
+    for s in bad_isuf + ["ABC", "u", "UL", "ll", "wb"]:
+        for b in "bB":
+            for body in ("2", "12", "0121", "102", "9", "1009"):
+                yield "L11:bin", "0" + b + body + s, "INVALID_BIN_INT", True
+        for body in ("8", "78", "789", "128", "09", "0080"):
+            yield "L11:oct", "0" + body + s, "INVALID_OCT_INT", True
     bad_fsuf = ["q", "ff", "lf", "fl", "LL", "x", "_f", "fF", "ll"]
     for base in ("1.5", ".5", "1.", "1e5", "1.5e-3", "0x1p3", "0x1.8p1"):
         for s in bad_fsuf:
